@@ -51,8 +51,14 @@ func main() {
 	repl := map[string]string{}
 	base := filepath.Dir(*specPath)
 	replaced := map[string]string{}
+	rel := func(p string) string {
+		if filepath.IsAbs(p) {
+			return p
+		}
+		return filepath.Join(base, p)
+	}
 	for _, r := range sp.Replace {
-		replaced[filepath.Join(*repo, r.To)] = filepath.Join(base, r.From)
+		replaced[filepath.Join(*repo, r.To)] = rel(r.From)
 	}
 	for _, p := range sp.Packages {
 		dir := filepath.Join(*repo, p.Dir)
@@ -87,14 +93,14 @@ func main() {
 		}
 	}
 	for _, a := range sp.Add {
-		from := filepath.Join(base, a.From)
+		from := rel(a.From)
 		if _, err := os.Stat(from); err != nil {
 			check(err)
 		}
 		repl[filepath.Join(*repo, a.To)] = from
 	}
 	for _, a := range sp.Abs {
-		repl[a.To] = filepath.Join(base, a.From)
+		repl[a.To] = rel(a.From)
 	}
 	ob, _ := json.MarshalIndent(map[string]interface{}{"Replace": repl}, "", " ")
 	check(os.WriteFile(filepath.Join(*out, "overlay.json"), ob, 0o644))
